@@ -2296,3 +2296,62 @@ ASSUMPTIONS += [
     "modules; a span object is recognised by two different fields of one "
     "local being used as keys/bounds in the filling method",
 ]
+
+EXPLANATION += (
+    "  R15.29 (rules/c15_fallback_except.py; D69, repaired in /repo b5d9a41): "
+    "a `try` in vm.py / vm_utils.py whose handlers catch only lookup-miss "
+    "exceptions (KeyError, IndexError, ValueError, LookupError) IS the "
+    "fallback for 'name not found'.  For every call in its body that resolves "
+    "to a definition in vm.py, vm_utils.py, state.py or blocks/blocks.py the "
+    "set of miss exceptions the callee can let escape is derived (`raise T`, "
+    "re-raise of a handler alias, `self.<attr>[k]` where the class binds "
+    "<attr> to a dict -> KeyError or to a tuple/list -> IndexError, `.index(k)` "
+    "-> ValueError; followed through self-method and module-local calls to "
+    "depth 3, minus what a try inside the callee catches) and must be covered "
+    "by the handlers of the call site (LookupError covers KeyError and "
+    "IndexError).  `_store_local_or_cellvar` caught ValueError while "
+    "OrderedCode.get_cell_index subscripts a dict: `G = 1` / `def f(): match "
+    "G: case int(): pass` raised KeyError: 'G' out of the analysis.  Blind "
+    "spots of R15.29: calls through receivers that are not `self`, a module "
+    "alias or a unique method name in the four modules; misses signalled by "
+    "builtin containers held in locals; handlers that also catch non-lookup "
+    "exceptions are not read as fallbacks.  "
+    "R15.30 (rules/c15_partial_conversion.py; D70, repaired in /repo 176e621): "
+    "P = the functions of abstract/abstract_utils.py that can let "
+    "ConversionError escape (direct raise, module-local call of a member of P, "
+    "value_to_constant; a covering try inside the function removes it; the "
+    "covering names are ConversionError's base chain read from the class "
+    "definition, so ValueError covers it).  Every use of a member of P (call, "
+    "or callback handed to map()) in a function reachable from the "
+    "pattern-matching opcode handlers (byte_MATCH_*, "
+    "byte_COPY_DICT_WITHOUT_KEYS) through `vm_utils.f(..)` and module-local "
+    "calls must be protected on every call chain - inside try/except "
+    "ConversionError at the use or at a call site up the chain.  Two derived "
+    "exemptions: `p(<parameter>, tuple)`, a shape assertion on the opcode's "
+    "compiler-built keys/names tuple; and the elements of the names operand "
+    "of MATCH_CLASS (identifiers of the class pattern, always str constants): "
+    "the operand is the target of the handler's first `state, <x> = "
+    "state.pop()`, followed through plain-name arguments into callee "
+    "parameters (a re-bound parameter loses the mark), and only `map(p, t)` / "
+    "`p(k) for k in t` over exactly that operand (or a once-bound local "
+    "holding `p(<operand>, tuple)`) is exempt on that chain.  `case {2.5: "
+    "z}:` / `case {Color.RED: z}:` / `{2.5: z, **rest}` raised ConversionError "
+    "out of the analysis.  Blind spots of R15.30: restricted to the "
+    "pattern-matching opcode family on purpose (the other ~20 unprotected "
+    "get_atomic_* uses in vm.py / vm_utils.py convert compiler-built operands: "
+    "names, code objects, keyword-name tuples); partial functions outside "
+    "abstract_utils.py; uses inside nested functions.")
+ASSUMPTIONS += [
+    "R15.29: a handler that catches only lookup-miss exceptions around a call "
+    "is meant as the not-found fallback for that call; an attribute bound to a "
+    "dict / tuple / list literal, comprehension or constructor in its class "
+    "keeps that kind",
+    "R15.30: MATCH_KEYS / MATCH_CLASS / COPY_DICT_WITHOUT_KEYS: the keys "
+    "(names) operand on top of the stack is a tuple built by the CPython "
+    "compiler (dis documentation); only its elements are user-written values",
+    "R15.30: MATCH_CLASS: the elements of its names operand (kwd_attrs) are "
+    "the keyword names of the class pattern (`case C(x=..)`: the grammar "
+    "allows only NAME there), emitted by the compiler as a tuple of str "
+    "constants; converting them to Python constants cannot raise "
+    "ConversionError",
+]
